@@ -188,6 +188,12 @@ func Build(specs []GenSpec) []gengo.Generator {
 				inst.Seen[name] = true
 				render(c, bh, name)
 				c.RenderT("// @g call #@k of this instance\n\n", snippet.Arg("g", snippet.Block(gs.Name)), snippet.Arg("k", snippet.Block(fmt.Sprint(inst.Calls))))
+			case "stateful-silent":
+				// the instance's state changes, nothing is rendered (types the generator has nothing to say about): an
+				// instance that rendered nothing is still a USED instance (seeded change C05-m parks and reuses it)
+				inst.Helper = true
+				inst.Seen[name] = true
+				return gengo.ErrSkip
 			case "analyze":
 				// whole-package analysis through the universe-wide accessors, once per instance
 				if !inst.Helper {
@@ -315,6 +321,10 @@ func Build(specs []GenSpec) []gengo.Generator {
 					}
 					inst.Seen[name] = true
 					c.RenderT("// @g saw alias @n as call #@k of this instance (@s names seen)\n\n", snippet.Arg("g", snippet.Block(gs.Name)), snippet.Arg("n", snippet.Block(a.Obj().Name())), snippet.Arg("k", snippet.Block(fmt.Sprint(inst.Calls))), snippet.Arg("s", snippet.Block(fmt.Sprint(len(inst.Seen)))))
+				case "stateful-silent":
+					inst.Helper = true
+					inst.Seen["alias:"+a.Obj().Name()] = true
+					return nil
 				case "alias-only", "render", "ignore-something":
 					c.RenderT("// @g @salt saw alias @n\n\n", snippet.Arg("g", snippet.Block(gs.Name)), snippet.Arg("salt", snippet.Block(bh.Salt)), snippet.Arg("n", snippet.Block(a.Obj().Name())))
 				case "alias-ignore-nothing":
